@@ -38,18 +38,25 @@ def _abs(x):
     return z3.If(x >= 0, x, -x)
 
 
+FULL_SANDWICH = False  # also bound the norm from above by 1.41422*max(|dx|,|dy|) (needed only where ranges of coordinates must bound distances)
+
+
 def _axioms_for(dx, dy, app):
-    ax, ay = _abs(dx), _abs(dy)
-    mx = z3.If(ax >= ay, ax, ay)
-    return [
-        app >= mx,
-        app <= SQRT2_UP * mx,
-        app <= ax + ay,
-        z3.Implies(dy == 0, app == ax),
-        z3.Implies(dx == 0, app == ay),
-        app == N2(-dx, -dy),
-        app == N2(ax, ay),
-    ]
+    ax = [app >= 0, app >= dx, app >= -dx, app >= dy, app >= -dy, app == N2(-dx, -dy), z3.Implies(z3.And(dx == 0, dy == 0), app == 0)]
+    if FULL_SANDWICH:
+        a_x, a_y = _abs(dx), _abs(dy)
+        mx = z3.If(a_x >= a_y, a_x, a_y)
+        ax += [app <= SQRT2_UP * mx]
+    return ax
+
+
+def collinear_axioms():
+    """exactness on axis-parallel differences; added when extracting replayable (collinear) models"""
+    out = []
+    for dx, dy, app in _apps:
+        out.append(z3.Implies(dy == 0, app == _abs(dx)))
+        out.append(z3.Implies(dx == 0, app == _abs(dy)))
+    return out
 
 
 def new_axioms():
